@@ -75,8 +75,7 @@ def gen_size_history(rng, tier, with_trigger=True, with_append=True, namings=Non
     cfg = Cfg(append=append, cap=cap, crit=crit, naming=naming, crlf=crlf,
               base=rng.choice([b"a", b"app", b"my-prog", b""]), disc=rng.choice([None, None, b"d1"]),
               sfx=b"log")
-    if not cfg.fixed():
-        cfg.base = b"a"
+    # (an empty fixed name part - no basename, no discriminant - is a legal configuration: the files are r00000.log ...)
     ops, ann = [], {}
     if append and naming in ("num", "ts") and rng.random() < 0.7:
         start = b"s" * sizes_around(rng, lim)
@@ -131,8 +130,6 @@ def gen_runs(rng, tier, cleanups=("n",), namings=None, sfxs=(b"log",), bg=False,
     base = rng.choice([b"a", b"app", b""])
     disc = rng.choice([None, None, b"d1"])
     sfx = rng.choice(sfxs)
-    if not base and disc is None:
-        base = b"a"
     append0 = rng.random() < 0.5
     ops = []
     t0 = T0 - rng.choice([0, 0, 1, 30, 86000])
